@@ -91,6 +91,7 @@ func InitTimeoutParamsFromConfig(conf *viper.Viper) *TimeoutParams {
 var (
 	ErrInvalidProposalSignature = errors.New("Error invalid proposal signature")
 	ErrInvalidProposalPOLRound  = errors.New("Error invalid proposal POL round")
+	ErrInvalidProposalParts     = errors.New("Error invalid proposal block parts header")
 	ErrAddingVote               = errors.New("Error adding vote")
 	ErrVoteHeightMismatch       = errors.New("Error vote height mismatch")
 )
@@ -1369,6 +1370,11 @@ func (cs *ConsensusState) defaultSetProposal(proposal *types.Proposal) error {
 		return ErrInvalidProposalPOLRound
 	}
 
+	// The part-set total sizes allocations (part slice, bit arrays): bound it.
+	if !validPartSetTotal(proposal.BlockPartsHeader.Total) {
+		return ErrInvalidProposalParts
+	}
+
 	// Verify signature
 	if !cs.Validators.Proposer().PubKey.VerifyBytes(types.SignBytes(cs.state.ChainID, proposal), proposal.Signature) {
 		return ErrInvalidProposalSignature
@@ -1383,6 +1389,12 @@ func (cs *ConsensusState) defaultSetProposal(proposal *types.Proposal) error {
 		cs.ProposalBlockParts = types.NewPartSetFromHeader(proposal.BlockPartsHeader)
 	}
 	return nil
+}
+
+// validPartSetTotal bounds the number of parts a peer may announce: every part
+// carries at least one byte of a block of at most types.MaxBlockSize bytes.
+func validPartSetTotal(total int) bool {
+	return 0 < total && total <= types.MaxBlockSize
 }
 
 // NOTE: block is not necessarily valid.
